@@ -117,6 +117,7 @@ def cutKind (src : Bytes) (toks : List Tok) (k : Nat) : Option String :=
           some "empty-parens"      -- `()` of `() => …`
         else if depthAfter upTo > 0 then some "in-bracket"
         else if isBinaryOp t.type then some "after-binop"
+        else if t.type = .DOT || t.type = .LAMBDA then some "after-dot-or-arrow"   -- `a.` and `x =>` also wait for their right side
         else none
       else if t.type = .STRING && tokStart src t < k && k < t.posAfter then some "in-string"      -- after the opening, before the closing quote
       -- inside an unclosed block comment: at least the opener `/*` is there (a cut between `/` and `*` leaves no comment)
